@@ -487,4 +487,226 @@ theorem pSp_envSolve (l : List Nat) (hl : l = [1] ∨ l = [2]) :
 
 end envpath
 
+section witness
+open Matrix
+
+/-- the answer of the sparse solver through `LocalNetwork`, from the answer of the solver -/
+theorem netSparse_ok {np : NetProblem ℝ} {h : Hom ℝ} {s : Answer ℝ}
+    (hp : prepare np = .ok h) (hs : envSolve (toProblem np) = .ok s) (hx : s.xErr = none) :
+    ∃ a, netSolve .env np = .ok a ∧ a.x = s.x ∧ a.defect = s.defect ∧ a.pvv = s.rtr := by
+  show ∃ a, netSparse np = .ok a ∧ _
+  unfold netSparse
+  have hs' : solverOf (K := ℝ) .env (toProblem np) = .ok s := hs
+  simp only [hp, hs', hx]
+  exact ⟨_, rfl, rfl, rfl, rfl⟩
+
+/-- `LocalNetwork` + envelope answers `npW 2 [1]` (= `npR`) and `npW 2 [2]`, defect 1 -/
+theorem npW2_env (l : List Nat) (hl : l = [1] ∨ l = [2]) : ∃ a, netSolve .env (npW 2 l) = .ok a ∧ a.defect = 1 := by
+  obtain ⟨s, hs, hx, hd⟩ := pSp_envSolve l hl
+  rw [← npW2_toProblem] at hs
+  obtain ⟨a, ha, -, ad, -⟩ := netSparse_ok (npR_prepare l) hs hx
+  exact ⟨a, ha, by rw [ad, hd]⟩
+
+/-! ### the covariance matrix of the active observations, the design matrix -/
+
+theorem npW_act (m0 : ℝ) (l : List Nat) : activeClusters (npW m0 l)
+    = [⟨⟨3, 2, #[16, 3, 8, 25, 5, 40]⟩, [true, false, true]⟩, ⟨⟨1, 0, #[16]⟩, [true]⟩] := by
+  simp [activeClusters, npW, Cluster.nAct]
+
+theorem npW_Sigma (m0 : ℝ) (l : List Nat) :
+    (Sigma (npW m0 l) : Matrix (Fin 3) (Fin 3) ℝ) = !![16, 8, 0; 8, 40, 0; 0, 0, 16] := by
+  ext i j
+  show sigmaF (npW m0 l) i.val j.val = _
+  unfold sigmaF
+  rw [npW_dimsN, npW_act]
+  fin_cases i <;> fin_cases j <;>
+    simp [AdjM.locate, Cluster.obs, Cov.activeIdx, Cov.CovMat.get, Cov.Packed.idx, Cov.Packed.rowOff, Cov.CovMat.raw,
+      Cov.CovMat.inBuf, List.range, List.range.loop] <;> rfl
+
+/-- the inverse of `Σ` -/
+noncomputable def PcR : Matrix (Fin 3) (Fin 3) ℝ := !![5/72, -1/72, 0; -1/72, 1/36, 0; 0, 0, 1/16]
+
+theorem sigma_inv : (!![16, 8, 0; 8, 40, 0; 0, 0, 16] : Matrix (Fin 3) (Fin 3) ℝ) * PcR = 1 := by
+  ext i j
+  fin_cases i <;> fin_cases j <;> simp [PcR, Matrix.mul_apply, Fin.sum_univ_three, Matrix.one_apply] <;> norm_num
+
+/-- `Σ⁻¹` at the index type of the network -/
+noncomputable def PcW (m0 : ℝ) (l : List Nat) :
+    Matrix (Fin (toProblem (npW m0 l)).m) (Fin (toProblem (npW m0 l)).m) ℝ := PcR
+
+theorem npW_sigma_inv (m0 : ℝ) (l : List Nat) : Sigma (npW m0 l) * PcW m0 l = 1 := by
+  have h := npW_Sigma m0 l
+  exact (congrArg (fun M : Matrix (Fin 3) (Fin 3) ℝ => M * PcR) h).trans sigma_inv
+
+theorem npW_dense (m0 : ℝ) (l : List Nat) : (toProblem (npW m0 l)).dense = #[#[4, 4], #[5, 5], #[4, 4]] := by
+  simp [Problem.dense, toProblem, npW]
+  refine ⟨?_, ?_, ?_⟩ <;> rfl
+
+theorem npW_A (m0 : ℝ) (l : List Nat) :
+    ((toProblem (npW m0 l)).A : Matrix (Fin 3) (Fin 2) ℝ) = !![4, 4; 5, 5; 4, 4] := by
+  have h : (toProblem (npW m0 l)).A = toMatrix 3 2 (toProblem (npW m0 l)).dense := rfl
+  rw [h, npW_dense]
+  ext i j; fin_cases i <;> fin_cases j <;> rfl
+
+theorem npW_S1 (m0 : ℝ) : ((toProblem (npW m0 [1])).S : Finset (Fin 2)) = ({0} : Finset (Fin 2)) := by
+  show Reg.toFinset 2 (.subset [1]) = _
+  decide
+
+theorem npW_S2 (m0 : ℝ) : ((toProblem (npW m0 [2])).S : Finset (Fin 2)) = ({1} : Finset (Fin 2)) := by
+  show Reg.toFinset 2 (.subset [2]) = _
+  decide
+
+/-! ### "rank numerically unambiguous": the single hypothesis `RankGap` for the family -/
+
+/-- `A β = (β₀ + β₁)·a` for the matrix with two equal columns `a = (4,5,4)` -/
+theorem eqcols_mulVec (β : Fin 2 → ℝ) :
+    (!![4, 4; 5, 5; 4, 4] : Matrix (Fin 3) (Fin 2) ℝ) *ᵥ β = (β 0 + β 1) • ![4, 5, 4] := by
+  ext i
+  fin_cases i <;> simp [Matrix.mulVec, dotProduct, Fin.sum_univ_two] <;> ring
+
+/-- every Schur pivot of `AᵀPA` is `0` or `aᵀPa` (any order), for ANY weight matrix -/
+theorem eqcols_gapAllP (P : Matrix (Fin 3) (Fin 3) ℝ) (τ : ℝ) (hc : τ < ![4, 5, 4] ⬝ᵥ P *ᵥ ![4, 5, 4]) :
+    GapAllP (!![4, 4; 5, 5; 4, 4] : Matrix (Fin 3) (Fin 2) ℝ) P τ := by
+  intro k β hk horth
+  have hq : ((!![4, 4; 5, 5; 4, 4] : Matrix (Fin 3) (Fin 2) ℝ) *ᵥ β) ⬝ᵥ
+      P *ᵥ ((!![4, 4; 5, 5; 4, 4] : Matrix (Fin 3) (Fin 2) ℝ) *ᵥ β)
+      = (β 0 + β 1) * ((β 0 + β 1) * (![4, 5, 4] ⬝ᵥ P *ᵥ ![4, 5, 4])) := by
+    rw [eqcols_mulVec, Matrix.mulVec_smul, smul_dotProduct, dotProduct_smul, smul_eq_mul, smul_eq_mul]
+  have hN : ∀ j : Fin 2, ((!![4, 4; 5, 5; 4, 4] : Matrix (Fin 3) (Fin 2) ℝ)ᵀ *ᵥ
+      (P *ᵥ ((!![4, 4; 5, 5; 4, 4] : Matrix (Fin 3) (Fin 2) ℝ) *ᵥ β))) j
+      = (β 0 + β 1) * (![4, 5, 4] ⬝ᵥ P *ᵥ ![4, 5, 4]) := by
+    intro j
+    rw [eqcols_mulVec, Matrix.mulVec_smul]
+    have : ∀ w : Fin 3 → ℝ, ((!![4, 4; 5, 5; 4, 4] : Matrix (Fin 3) (Fin 2) ℝ)ᵀ *ᵥ w) j = ![4, 5, 4] ⬝ᵥ w := by
+      intro w
+      fin_cases j <;> simp [Matrix.mulVec, dotProduct, Fin.sum_univ_three]
+    rw [this, dotProduct_smul, smul_eq_mul]
+  rw [hq]
+  obtain ⟨j, hjk, hall⟩ : ∃ j : Fin 2, j ≠ k ∧ β 0 + β 1 = β k + β j := by
+    fin_cases k
+    · exact ⟨1, by decide, rfl⟩
+    · exact ⟨0, by decide, add_comm _ _⟩
+  by_cases hβ : β j = 0
+  · right
+    rw [hall, hk, hβ]; simpa using hc
+  · left
+    have := horth j hjk hβ
+    rw [hN] at this
+    rw [this, mul_zero]
+
+/-- a kernel vector of `A` is `t·(1,−1)`: both one-element subsets resolve the defect with margin `τ = 1/2` -/
+theorem eqcols_margin (S : Finset (Fin 2)) (hS : S = {0} ∨ S = {1}) :
+    SMargin (!![4, 4; 5, 5; 4, 4] : Matrix (Fin 3) (Fin 2) ℝ) S (1 / 2) := by
+  intro g hg hne
+  have h0 : 4 * g 0 + 4 * g 1 = 0 := by
+    have := congrFun hg 0
+    simpa [Matrix.mulVec, dotProduct, Fin.sum_univ_two] using this
+  have h1 : g 1 = - g 0 := by linarith
+  have hg0 : g 0 ≠ 0 := by
+    intro h
+    apply hne
+    funext i
+    fin_cases i
+    · exact h
+    · show g 1 = 0
+      rw [h1, h]; ring
+  have hpos : 0 < g 0 * g 0 := mul_self_pos.mpr hg0
+  have hgg : g ⬝ᵥ g = g 0 * g 0 + g 1 * g 1 := by simp [dotProduct, Fin.sum_univ_two]
+  rw [hgg, h1]
+  rcases hS with rfl | rfl
+  · simp only [Finset.sum_singleton]
+    nlinarith
+  · simp only [Finset.sum_singleton, h1]
+    nlinarith
+
+/-- `aᵀ Σ⁻¹ a = 9/4` -/
+theorem aPa : (![4, 5, 4] : Fin 3 → ℝ) ⬝ᵥ PcR *ᵥ ![4, 5, 4] = 9 / 4 := by
+  simp [PcR, Matrix.mulVec, dotProduct, Fin.sum_univ_three]
+  norm_num
+
+theorem npW_rankGap (m0 : ℝ) (l : List Nat) (hl : l = [1] ∨ l = [2]) (hm : 1 / 2 < m0 * m0 * (9 / 4)) :
+    RankGap (toProblem (npW m0 l)).A ((m0 * m0) • PcW m0 l) (toProblem (npW m0 l)).S (1 / 2) := by
+  refine ⟨?_, ?_⟩
+  · rw [npW_A]
+    apply eqcols_gapAllP
+    show 1 / 2 < ![4, 5, 4] ⬝ᵥ ((m0 * m0) • PcR) *ᵥ ![4, 5, 4]
+    rw [Matrix.smul_mulVec, dotProduct_smul, aPa, smul_eq_mul]
+    exact hm
+  · rw [npW_A]
+    rcases hl with rfl | rfl
+    · rw [npW_S1]; exact eqcols_margin _ (Or.inl rfl)
+    · rw [npW_S2]; exact eqcols_margin _ (Or.inr rfl)
+
+theorem npW_regListOK (m0 : ℝ) (l : List Nat) (hl : l = [1] ∨ l = [2]) : Env.RegListOK (toProblem (npW m0 l)) := by
+  intro l' hl'
+  have : l' = l := by
+    have h : Reg.subset l = Reg.subset l' := hl'
+    injection h with h'; exact h'.symm
+  rw [this]
+  have hn : (toProblem (npW m0 l)).n = 2 := rfl
+  rw [hn]
+  rcases hl with rfl | rfl <;> exact ⟨by decide, by decide⟩
+
+/-! ### the second run of the σ_apr-scaling theorem: `m_0_apr_ = 4`, cholesky -/
+
+theorem npR4_prepare (l : List Nat) : prepare (npW (2 * 2) l) = .ok ⟨[⟨2, 1, #[1, 1 / 2, 3 / 2]⟩, ⟨1, 0, #[1]⟩],
+    #[#[4, 4], #[2, 2], #[4, 4]], #[1, 1, 3]⟩ := by
+  rw [npW_prepare (2 * 2) l 1 (1 / 2) (3 / 2) 1 (npW4_factors l)]
+  norm_num
+
+/-- the homogenised problem `LocalNetwork` hands a full solver when `m_0_apr_ = 4` -/
+noncomputable def pCSdot4 : Problem ℝ :=
+  AdjM.dotProblem (pCS ℝ) #[#[4, 4], #[2, 2], #[4, 4]] #[1, 1, 3] (regOf (pCS ℝ).reg)
+
+theorem npR4_dot (Us : List (Cov.CovMat ℝ)) :
+    Net.dotProblem (npW (2 * 2) [1]) ⟨Us, #[#[4, 4], #[2, 2], #[4, 4]], #[1, 1, 3]⟩ = pCSdot4 := rfl
+
+theorem pCSdot4_dense : pCSdot4.dense = #[#[4, 4], #[2, 2], #[4, 4]] := by
+  simp [pCSdot4, AdjM.dotProblem, Problem.dense, pCS, Dn.mget, Array.ofFn_succ, List.range, List.range.loop]
+  refine ⟨?_, ?_, ?_⟩ <;> rfl
+
+section chol4
+open Gama.Ls.Chol Gama.Ls.Dn
+
+theorem pCSdot4_cholFact : cholFact pCSdot4 = ⟨#[0, 1], #[#[36, 0], #[1, 0]], 1, some 0⟩ := by
+  unfold cholFact
+  rw [pCSdot4_dense]
+  show Chol.factor 2 2 0 (pmk 2 id) (normalMat 3 2 #[#[4, 4], #[2, 2], #[4, 4]]) = _
+  have h1 : ¬ (36 : ℝ) ≤ sTol := not_le.2 (by linarith [sTol_lt_one])
+  have h0 : (0 : ℝ) ≤ sTol := le_of_lt sTol_pos
+  simp [Chol.factor, normalMat, mmk22, pmk2, pivotSearch, diagAt, Dn.mget, pget, sumFrom, elim,
+    invPerm_id2, sget, junk, List.range']
+  norm_num [h1, h0]
+
+theorem pCSdot4_chol_gs (x0 : Array ℝ) : ∃ G, gsLoop 2 1 [0] 1 0 (pmk 2 id)
+    (gInit 2 1 1 #[0, 1] #[#[36, 0], #[1, 0]] x0) = .ok G := by
+  have h1 : ¬ (1 : ℝ) < sTol := not_lt.2 (le_of_lt sTol_lt_one)
+  simp [gsLoop, gInit, ofFn1, backSub, sweep, Chol.dotS, pmk2, vmk2, invPerm_id2, pget, Dn.vget, sget,
+    Dn.mget, h1]
+
+theorem pCSdot4_chol_answers : ∃ a', cholSolve pCSdot4 = .ok a' ∧ a'.defect = 1 ∧ a'.xErr = none := by
+  have hf : Chol.factor pCSdot4.n pCSdot4.n 0 (pmk pCSdot4.n id) (normalMat pCSdot4.m pCSdot4.n pCSdot4.dense)
+      = ⟨#[0, 1], #[#[36, 0], #[1, 0]], 1, some 0⟩ := pCSdot4_cholFact
+  have hr : Chol.regList pCSdot4.n pCSdot4.reg = some [0] := rfl
+  unfold cholSolve Chol.solve
+  simp only [hr, hf]
+  obtain ⟨G, hG⟩ := pCSdot4_chol_gs (solveX0 2 1 #[0, 1] #[#[36, 0], #[1, 0]]
+    (normalRhs pCSdot4.m pCSdot4.n pCSdot4.dense pCSdot4.rhs))
+  have hG' : gsLoop pCSdot4.n 1 [0] 1 0 (pmk (1 + 1) id) (gInit pCSdot4.n (pCSdot4.n - 1) 1 #[0, 1] #[#[36, 0], #[1, 0]]
+      (solveX0 pCSdot4.n (pCSdot4.n - 1) #[0, 1] #[#[36, 0], #[1, 0]]
+        (normalRhs pCSdot4.m pCSdot4.n pCSdot4.dense pCSdot4.rhs))) = .ok G := hG
+  rw [if_neg (by decide), hG']
+  exact ⟨_, rfl, rfl, rfl⟩
+
+/-- `LocalNetwork` + cholesky answers `scaleM0 2 npR` (`m_0_apr_ = 4`), defect 1 -/
+theorem npR4_chol : ∃ a, netSolve .chol (scaleM0 2 npR) = .ok a ∧ a.defect = 1 := by
+  rw [npR_scale]
+  obtain ⟨s, hs, hd, he⟩ := pCSdot4_chol_answers
+  obtain ⟨a, ha, -, ad, -⟩ := netFull_ok (alg := .chol) (by decide) (npR4_prepare [1]) hs he
+  exact ⟨a, ha, by rw [ad, hd]⟩
+
+end chol4
+
+end witness
+
 end Gama.Ls.Ex
